@@ -8,7 +8,7 @@
    in the entry's own format.  PARTIAL: the composition of (1)-(4) for NESTED histories and for -sf mode is carried by
    the lockstep correspondence, not by a theorem. *)
 From Coq Require Import Permutation.
-From MHL Require Import Model.Commands Proofs.BaseFacts Proofs.TreeFacts Proofs.RouteFacts Proofs.SealFacts Proofs.CreateFacts.
+From MHL Require Import Model.Commands Proofs.BaseFacts Proofs.TreeFacts Proofs.RouteFacts Proofs.SealFacts Proofs.CreateFacts Proofs.SfFacts.
 
 (* (0) the composed command, flat history: the new generation records exactly the tree *)
 Theorem C02_create_records_exactly_the_tree : forall Hb matches C cdig ser (t : node C) h0 req no_dh ip ifl,
@@ -72,3 +72,21 @@ Definition m0 (spec : list text) (s : text) : bool := existsb (text_eqb s) spec.
 Definition t0 : node unit := Dir None [([98%N], File [1%N]); ([97%N], Dir None [([99%N], File [])]); ([120%N], File [])].
 Example C02_example : map fst (reported (events m0 unit [[120%N]] [] t0)) = [[[97%N]; [99%N]]; [[97%N]]; [[98%N]]].
 Proof. reflexivity. Qed.
+
+(* -sf MODE, flat history (one history, at the root, any number of prior generations): the run writes one generation
+   whose records are EXACTLY the named files -- a named file itself, every visible file beneath a named folder, each
+   once even when named several times -- all of them file records whose entries are the current digests of the file's
+   bytes; with nothing to record nothing is written.  (For nested histories the composition is the correspondence's.) *)
+Theorem C02_sf_records_exactly_the_named_files : forall Hb matches C cdig ser h0, lh_root h0 = [] ->
+  forall t req sf ip ifl, load C cdig t = inl [h0] -> is_dir C t = true -> req <> [] ->
+  let spec := set_patterns (latest_patterns (lh_gens h0)) ip (pattern_file_lines ifl) in
+  let files := flat_map (sf_files matches C spec t) sf in
+  let o := snd (create_sf Hb matches C cdig ser t req sf ip ifl) in
+  o_outcome o <> Abort ->
+  (files = [] -> o_written o = []) /\
+  (files <> [] -> exists doc, o_written o = [([], doc)] /\ NoDup (map r_path (g_records doc)) /\
+     (forall q, In q (map r_path (g_records doc)) <-> In q (map fst files)) /\
+     (forall r, In r (g_records doc) -> r_dir r = false /\ exists c, In (r_path r, c) files /\
+        forall e, In e (r_entries r) -> e_digest e = digest_text Hb (e_fmt e) c)).
+Proof. exact create_sf_flat_exact. Qed.
+Print Assumptions C02_sf_records_exactly_the_named_files.
